@@ -591,3 +591,83 @@ type Mutation {{
                     features=("enum_reserved",) if reserved else ("references",), files=files,
                     notes={"enum_values": {"Color": color, "Sort": sort}, "scalars_variant": sv,
                            "pinned": ["scalars"] if "scalars" in cfg else []})
+
+
+# ------------------------------------------------------------------------------------------- name collisions
+COLLISION_SDL = """
+interface Animal { id: ID! name: String }
+type Dog implements Animal { id: ID! name: String bark: Int }
+type Cat implements Animal { id: ID! name: String }
+enum Color { RED GREEN }
+input Filter { color: Color q: String }
+type Query { animal(f: Filter): Animal dogs(c: Color): [Dog!]! s(x: String): String }
+type Mutation { m(i: Filter!): Dog }
+"""
+COLLISION_QUERIES = ("query GetX($f: Filter) {{ animal(f: $f) {{ ...AF }} }}\n\nquery {other}($c: Color) {{ dogs(c: $c) {{ bark }} }}\n\n"
+                     "fragment AF on Animal {{ name }}\n")
+BASE_CLIENT_STEMS = {(True, False): "async_base_client", (True, True): "async_base_client_open_telemetry",
+                     (False, False): "base_client", (False, True): "base_client_open_telemetry"}
+EXTRACT_PLUGIN = "ariadne_codegen.contrib.extract_operations.ExtractOperationsPlugin"
+
+
+def name_collisions(rng: random.Random, controls: int = 16) -> list:
+    """Every file the package writes x every source of file names.  Targets: the client module, the bundled base
+    client in use, base_model, enums, input types, fragments, exceptions, base_operation and the four custom
+    operation modules (custom operations on), __init__, another operation's module, an included file.  Sources:
+    an operation name, client_file_name, enums_module_name, input_types_module_name, fragments_module_name, a
+    files_to_include basename.  Every (source, target) pair is one scenario; the control group repeats pairs whose
+    target is NOT written under the configuration (custom operations off, another base client) and must generate
+    and load.  The ExtractOperations plugin's module (written by the plugin itself) is a last group."""
+    out = []
+
+    def scen(source, stem, custom=True, async_=True, otel=False, group="pair", plugin=False):
+        cfg = {"enable_custom_operations": custom, "async_client": async_, "opentelemetry_client": otel,
+               "files_to_include": ["extra/helpers.py"]}
+        files = {"extra/helpers.py": "HELPER = 1\n"}
+        other = "Other"
+        if source == "operation":
+            other = stem
+        elif source == "include":
+            files[f"other/{stem}.py"] = "X = 1\n"
+            cfg["files_to_include"] = ["extra/helpers.py", f"other/{stem}.py"]
+        else:
+            cfg[source] = stem
+        if plugin:
+            cfg["plugins"] = [EXTRACT_PLUGIN]
+        q = COLLISION_QUERIES.format(other=other)
+        if not valid(COLLISION_SDL, q):
+            return
+        out.append(Scenario(seed=len(out), sdl=COLLISION_SDL, queries=q, config=cfg, features=("name_collisions",),
+                            files=files, notes={"source": source, "target": stem, "group": group,
+                                                "pinned": sorted(cfg)}))
+
+    sources = ["operation", "client_file_name", "enums_module_name", "input_types_module_name",
+               "fragments_module_name", "include"]
+    own = {"client_file_name": "client", "enums_module_name": "enums", "input_types_module_name": "input_types",
+           "fragments_module_name": "fragments"}
+    a, o = rng.choice(list(BASE_CLIENT_STEMS))
+    targets = ["client", BASE_CLIENT_STEMS[(a, o)], "base_model", "enums", "input_types", "fragments", "exceptions",
+               "base_operation", "custom_typing_fields", "custom_fields", "custom_queries", "custom_mutations",
+               "__init__", "get_x", "helpers"]
+    for t in targets:
+        for s in sources:
+            if own.get(s) == t:
+                continue
+            if s == "operation" and t == "__init__":
+                continue  # process_name never yields __init__
+            scen(s, t, custom=True, async_=a, otel=o)
+    ctl = []
+    for t in ["base_operation", "custom_typing_fields", "custom_fields", "custom_queries", "custom_mutations"]:
+        for s in sources:
+            ctl.append((s, t, False, a, o))
+    for (a2, o2), stem in BASE_CLIENT_STEMS.items():
+        if (a2, o2) != (a, o):
+            for s in sources:
+                ctl.append((s, stem, True, a, o))
+    rng.shuffle(ctl)
+    for s, t, custom, a2, o2 in ctl[:controls]:
+        scen(s, t, custom=custom, async_=a2, otel=o2, group="control")
+    scen("operation", "Other", group="plugin", plugin=True)
+    for s in ("operation", "enums_module_name", "include"):
+        scen(s, "operations", group="plugin", plugin=True)
+    return out
